@@ -833,21 +833,26 @@ void myth_verif_ev(int kind, const void * a, long b) {
 static struct {
   _Atomic int on;
   _Atomic int lock;
-  long sec, nsec, step;
+  long sec, nsec, step_sec, step_nsec;
   _Atomic uint64_t reads;
 } g_vc;
 
 static void vc_lock(void) { int z = 0; while (!atomic_compare_exchange_weak(&g_vc.lock, &z, 1)) z = 0; }
 static void vc_unlock(void) { atomic_store(&g_vc.lock, 0); }
 
-void myth_verif_vclock_enable(long sec, long nsec, long step_ns) {
+void myth_verif_vclock_enable2(long sec, long nsec, long step_sec, long step_nsec) {
   vc_lock();
-  g_vc.sec = sec; g_vc.nsec = nsec; g_vc.step = step_ns;
+  g_vc.sec = sec; g_vc.nsec = nsec; g_vc.step_sec = step_sec; g_vc.step_nsec = step_nsec;
   vc_unlock();
   atomic_store(&g_vc.on, 1);
 }
+void myth_verif_vclock_enable(long sec, long nsec, long step_ns) {
+  myth_verif_vclock_enable2(sec, nsec, step_ns / 1000000000L, step_ns % 1000000000L);
+}
 void myth_verif_vclock_disable(void) { atomic_store(&g_vc.on, 0); }
-void myth_verif_vclock_set_step(long step_ns) { vc_lock(); g_vc.step = step_ns; vc_unlock(); }
+void myth_verif_vclock_set_step(long step_ns) {
+  vc_lock(); g_vc.step_sec = step_ns / 1000000000L; g_vc.step_nsec = step_ns % 1000000000L; vc_unlock();
+}
 void myth_verif_vclock_peek(struct timespec * ts) {
   vc_lock(); ts->tv_sec = g_vc.sec; ts->tv_nsec = g_vc.nsec; vc_unlock();
 }
@@ -857,8 +862,8 @@ int myth_verif_clock(struct timespec * ts) {
   if (!atomic_load_explicit(&g_vc.on, memory_order_relaxed)) return 0;
   vc_lock();
   /* advance first, then report: consecutive readings are strictly increasing when step > 0 */
-  long ns = g_vc.nsec + g_vc.step;
-  g_vc.sec += ns / 1000000000L;
+  long ns = g_vc.nsec + g_vc.step_nsec;
+  g_vc.sec += g_vc.step_sec + ns / 1000000000L;
   g_vc.nsec = ns % 1000000000L;
   ts->tv_sec = g_vc.sec;
   ts->tv_nsec = g_vc.nsec;
